@@ -65,3 +65,26 @@ func init() {
 		New:    "\t\treturn 0, string(ch), startPos, endPos",
 		Expect: "end-marker-token:0#2"})
 }
+
+func init() {
+	addFixture(Fixture{Name: "send-left-unbracketed", Rule: "R-PRINT-GRAMMAR", File: "types/types.go",
+		Old:    "\tbuffer.WriteString(stringLeftOperand(q.Left))\n\tbuffer.WriteString(\" * \")",
+		New:    "\tbuffer.WriteString(q.Left.String())\n\tbuffer.WriteString(\" * \")",
+		Expect: "triple:SendType.Left<-SendType"})
+	addFixture(Fixture{Name: "left-operand-forgets-up", Rule: "R-PRINT-GRAMMAR", File: "types/types.go",
+		Old:    "\tcase *SendType, *ReceiveType, *UpType, *DownType:\n\t\treturn \"(\" + t.String() + \")\"",
+		New:    "\tcase *SendType, *ReceiveType, *DownType:\n\t\treturn \"(\" + t.String() + \")\"",
+		Expect: "Left<-UpType"})
+	addFixture(Fixture{Name: "receive-prints-arrow", Rule: "R-PRINT-GRAMMAR", File: "types/types.go",
+		Old:    "\tbuffer.WriteString(stringLeftOperand(q.Left))\n\tbuffer.WriteString(\" -* \")",
+		New:    "\tbuffer.WriteString(stringLeftOperand(q.Left))\n\tbuffer.WriteString(\" -> \")",
+		Expect: "(*types.ReceiveType).String | print-production"})
+	addFixture(Fixture{Name: "kind-dropped", Rule: "R-KIND-EXH", File: "parser/parser.go",
+		Old:    "\t\t\tassumedFreeNames = append(assumedFreeNames, p.assumedFreeNameTypes...)",
+		New:    "\t\t\t_ = p.assumedFreeNameTypes",
+		Expect: "kind:ASSUMING_DEF"})
+	addFixture(Fixture{Name: "parse-error-dropped", Rule: "R-PARSE-ERR", File: "parser/parser.go",
+		Old:    "\tallEnvironment, err := Parse(r)\n\n\tif err != nil {\n\t\treturn nil, nil, nil, err\n\t}",
+		New:    "\tallEnvironment, err := Parse(r)\n\t_ = err",
+		Expect: "parser.ParseReader | errors-propagated"})
+}
